@@ -132,6 +132,8 @@ class Gen:
                 ops.append(dict(o, op="StartFile", name=self.name(allow_long)))
                 for _ in range(r.choice([0, 1, 1, 1, 2, 3])):
                     w = {"op": "Write", "data": self.payload(big)}
+                    if r.random() < 0.15:
+                        w["vec"] = True                    # through write_vectored
                     if r.random() < 0.2:
                         w["split"] = r.choice([1, 7, 4096])
                         if w["data"]["len"] > 20000 and w["split"] < 100:
@@ -148,10 +150,10 @@ class Gen:
             elif extra:
                 o = self.opts(methods=methods)
                 ops.append(dict(o, op="StartFileExtra", name=self.name()))
-                ops.append({"op": "WriteExtra", "recs": self.extra_recs()})
+                ops.append({"op": "WriteExtra", "recs": self.extra_recs(), "vec": r.random() < 0.3})
                 if r.random() < 0.5:
                     ops.append({"op": "EndLocalStartCentral"})
-                    ops.append({"op": "WriteExtra", "recs": self.extra_recs()})
+                    ops.append({"op": "WriteExtra", "recs": self.extra_recs(), "vec": r.random() < 0.3})
                 if r.random() < 0.8:
                     ops.append({"op": "EndExtra"})
                     ops.append({"op": "Write", "data": self.payload()})
@@ -372,7 +374,7 @@ def _ipayload(r, cls):
         return [{"op": "Write", "data": {"len": r.randint(2, 400), "seed": r.randint(1, 999), "kind": "text"}}]
     if cls == "64k":
         return [{"op": "Write", "data": {"len": 65536 + r.randint(-2, 2), "seed": r.randint(1, 999), "kind": r.choice(["rand", "zero", "text"])}}]
-    return [{"op": "Write", "data": {"len": 5000, "seed": r.randint(1, 999), "kind": "text"}, "split": r.choice([1, 7, 4096])},
+    return [{"op": "Write", "data": {"len": 5000, "seed": r.randint(1, 999), "kind": "text"}, "split": r.choice([1, 7, 4096]), "vec": r.random() < 0.5},
             {"op": "Write", "data": {"len": 300, "seed": r.randint(1, 999), "kind": "rand"}}]
 
 
@@ -384,8 +386,8 @@ def interaction_program(r, sc, row, k=0):
     when = {"zero": (0, 0), "ones": (65535, 65535), "rand": (r.randint(0, 65535), r.randint(0, 65535))}[row["when"]]
     o = {"method": m, "level": lv, "large": row["large"], "perm": row["perm"], "date": when[0], "time": when[1]}
     kind = row["kind"]
-    if row["enc"] and kind == "file":
-        o["enc"] = row["enc"]
+    if row["enc"] and kind in ("file", "dir", "symlink", "file-dirname"):
+        o["enc"] = row["enc"]             # (the encryption option on every call that takes options)
     nm = _iname(r, row["name"], k)
     pay = _ipayload(r, row["payload"])
     xr = [{"id": 0xbeef, "dsz": r.choice([0, 5, 300])}, {"id": 0xcafe, "dsz": 0}]      # (the last record has an empty body)
@@ -404,7 +406,7 @@ def interaction_program(r, sc, row, k=0):
     elif kind.startswith("extra"):
         focus = [dict(o, op="StartFileExtra", name=nm)]
         if kind in ("extra-local", "extra-both", "extra-open"):
-            focus.append({"op": "WriteExtra", "recs": xr})
+            focus.append({"op": "WriteExtra", "recs": xr, "vec": k % 2 == 0})
         if kind in ("extra-central", "extra-both"):
             focus += [{"op": "EndLocalStartCentral"}, {"op": "WriteExtra", "recs": [{"id": 0xdead, "dsz": 9}, {"id": 0xd00d, "dsz": 0}]}]
         if kind != "extra-open":          # extra-open: the phase is closed implicitly by the next call
